@@ -53,3 +53,12 @@ func (tree *MutableTree) DumpLastSavedShape() []ShapeNode {
 func (tree *MutableTree) WorkingTree() *ImmutableTree {
 	return tree.ImmutableTree
 }
+
+// MutableTreeForVerif exposes the tree behind an iavl.Store (nil if the store wraps an immutable
+// tree). The harness only calls read-only methods (GetImmutable, DumpShape, Version) on it.
+func (st *Store) MutableTreeForVerif() *MutableTree {
+	if t, ok := st.tree.(*MutableTree); ok {
+		return t
+	}
+	return nil
+}
